@@ -20,6 +20,11 @@ pub struct CloneCase {
     pub stdin_seed: Option<u8>,
     pub verify_output: bool,
     pub verify_header: bool,
+    /// a clone that (probably) FAILS: 0 = none, 1 = last byte of the archive flipped (the last stored chunk does not
+    /// verify), 2 = archive cut short by a few bytes, 3 = --verify-header with a wrong checksum. The rules about which
+    /// files may be touched hold for failing clones just the same; whether the run fails is not judged here.
+    #[serde(default)]
+    pub fault: u8,
 }
 
 #[derive(Clone, Debug, Serialize, Deserialize)]
@@ -243,9 +248,23 @@ fn run_clone(c: &CloneCase, rec: &mut CaseRec) -> Result<(), String> {
     std::fs::create_dir_all(&work).unwrap();
     std::fs::create_dir_all(&tmp).unwrap();
     let use_strace = strace_works(&dir);
+    let mut failed_run = false;
     let r = (|| -> Result<(), String> {
         let archive = crate::util::block_on(crate::l1::compress_lib(e.source.clone(), &s.cfg, ReadScript::full(), &Default::default()))?;
         let hdr = crate::refs::format::decode_header(&archive).map_err(|x| x.to_string())?;
+        let mut archive = archive;
+        match c.fault % 4 {
+            1 => {
+                if let Some(b) = archive.last_mut() {
+                    *b ^= 0x01;
+                }
+            }
+            2 => {
+                let n = archive.len().saturating_sub(3);
+                archive.truncate(n);
+            }
+            _ => {}
+        }
         l2::write_file(&work.join("a.cba"), &archive);
         let mut args: Vec<String> = vec!["clone".into()];
         let mut stdin = None;
@@ -268,9 +287,13 @@ fn run_clone(c: &CloneCase, rec: &mut CaseRec) -> Result<(), String> {
         if c.verify_output && !s.block_dev {
             args.push("--verify-output".into());
         }
-        if c.verify_header {
+        if c.verify_header || c.fault % 4 == 3 {
             args.push("--verify-header".into());
-            args.push(hex::encode(&hdr.checksum));
+            let mut pin = hdr.checksum.clone();
+            if c.fault % 4 == 3 {
+                pin[17] ^= 0x40;
+            }
+            args.push(hex::encode(&pin));
         }
         let srv = if c.http { Some(crate::http::Server::start(Arc::new(archive.clone()), crate::http::Script::default())) } else { None };
         args.push(srv.as_ref().map(|s| s.url()).unwrap_or_else(|| "a.cba".into()));
@@ -284,9 +307,13 @@ fn run_clone(c: &CloneCase, rec: &mut CaseRec) -> Result<(), String> {
         let spec = l2::RunSpec { args: args.clone(), stdin, hook_build: s.block_dev, env, strace_out: if use_strace { Some(so.clone()) } else { None }, ..Default::default() };
         let run = l2::run_bita(&work, &spec);
         drop(srv);
-        if !run.ok() {
+        if run.timed_out {
+            return Err(format!("[timeout] bita clone: {}", run.describe()));
+        }
+        if !run.ok() && c.fault % 4 == 0 {
             return Err(format!("bita clone failed: {} {:?}", run.describe(), args));
         }
+        failed_run = !run.ok();
         let mut after = tree(&dir);
         after.remove("strace.out");
         let added: Vec<&String> = after.difference(&before).collect();
@@ -319,6 +346,8 @@ fn run_clone(c: &CloneCase, rec: &mut CaseRec) -> Result<(), String> {
     r?;
     rec.level = Some("L2");
     rec.nontrivial = true;
+    rec.class_if(failed_run, "clone_that_failed");
+    rec.class_if(failed_run && s.prior.is_some(), "clone_that_failed_onto_an_existing_output");
     rec.class_if(s.inplace && e.source.len() > 8 * 1024 * 1024, match &s.prior { Some(Related::Edited(ed)) => match (ed.len(), ed.first()) { (1, Some(Edit::Move { len, .. })) if *len == 10 * 1024 * 1024 => "big_swap_longer_half_first", (1, _) => "big_swap_shorter_half_first", (2, Some(Edit::Move { at: 0, .. })) => "big_rotation", _ => "big_region_move" }, _ => "big_other" });
     rec.class(format!(
         "clone{}{}{}{}{}{}",
@@ -462,14 +491,15 @@ fn big_inplace_strategy() -> impl Strategy<Value = CloneCase> {
             stdin_seed: None,
             verify_output: true,
             verify_header: false,
+            fault: 0,
         }
     })
 }
 
 fn clone_strategy() -> impl Strategy<Value = CloneCase> {
-    (scenario_strategy(8, true, true), l2::cli_chunker_strategy(), any::<bool>(), prop_oneof![2 => Just(None), 1 => (0u8..4).prop_map(Some)], any::<bool>(), any::<bool>()).prop_map(|(mut scen, chunker, http, stdin_seed, verify_output, verify_header)| {
+    (scenario_strategy(8, true, true), l2::cli_chunker_strategy(), any::<bool>(), prop_oneof![2 => Just(None), 1 => (0u8..4).prop_map(Some)], any::<bool>(), any::<bool>(), prop_oneof![3 => Just(0u8), 1 => Just(1u8), 1 => Just(2u8), 1 => Just(3u8)]).prop_map(|(mut scen, chunker, http, stdin_seed, verify_output, verify_header, fault)| {
         scen.cfg.chunker = chunker;
-        CloneCase { scen, http, stdin_seed, verify_output, verify_header }
+        CloneCase { scen, http, stdin_seed, verify_output, verify_header, fault }
     })
 }
 fn compress_strategy() -> impl Strategy<Value = CompressCase> {
